@@ -11,15 +11,43 @@ import conductor as _c
 SRC = os.path.dirname(os.path.realpath(_c.__file__)) + os.sep
 
 
+class EnvLoops:
+    """Loops in Conductor whose trip count depends on the interpreter's environment and not on the program's input:
+    `prevent_module_caching` walks over sys.modules (one pair of line events per loaded module - several hundred, and the
+    number changes whenever the harness itself imports something).  Their line events are counted for the first two
+    iterations only, so that point numbers are the same in every process and every run."""
+    NAMES = ("prevent_module_caching",)
+
+    def __init__(self):
+        self.cnt = {}
+
+    def entered(self, frame):
+        """Call (or generator resumption) event."""
+        if frame.f_code.co_name in self.NAMES:
+            self.cnt = {}
+
+    def skip(self, frame):
+        code = frame.f_code
+        if code.co_name not in self.NAMES:
+            return False
+        key = (id(frame), frame.f_lineno)
+        c = self.cnt.get(key, 0) + 1
+        self.cnt[key] = c
+        return c > 2
+
+
 class _Tracer:
     def __init__(self, k, only):
         self.k = k
         self.n = 0
         self.only = only
         self.where = None
+        self.env = EnvLoops()
 
     def local(self, frame, event, arg):
         if event == "line":
+            if self.env.skip(frame):
+                return self.local
             if self.n == self.k:
                 code = frame.f_code
                 os.write(self.report_fd, pickle.dumps({"killed_at": "%s:%s:%d" % (code.co_filename[len(SRC):], code.co_qualname, frame.f_lineno), "n": self.n}))
@@ -30,6 +58,7 @@ class _Tracer:
     def glob(self, frame, event, arg):
         fn = frame.f_code.co_filename
         if fn.startswith(SRC) and (self.only is None or fn[len(SRC):] in self.only):
+            self.env.entered(frame)
             return self.local
         return None
 
